@@ -195,7 +195,7 @@ theorem C01_value_text_roundtrip {α : Type} [Arith α] (l : List Tok) (p : VPad
   simp only [VPad.ok, Bool.and_eq_true] at hp
   obtain ⟨⟨⟨⟨⟨hpre, hpost⟩, -⟩, -⟩, -⟩, -⟩ := hp
   have hs0 := hs
-  simp only [spellVal] at hs
+  simp only [spellVal, spellCore] at hs
   obtain ⟨r1, post, rfl, hs1, hpost'⟩ := hs.append_inv
   obtain ⟨pre, tl, rfl, hpre', htl⟩ := hs1.append_inv
   have hnn := rt_text_not_numeric (α := α) l hv.1 hv.2 pre tl post htl
